@@ -15,7 +15,7 @@ class C16(PureCheck):
     rule = ("str and FmtStr inputs: layouts of <=2 runs of length 0..3 (quick, + sampled 3-run layouts with runs up to "
             "length 4) / all <=2 runs of length 0..3 + 60k sampled 3-run layouts + 40k sampled layouts with runs up to length 4 (thorough) over "
             "{x, y, space, tab, newline} x {plain, red, bold+on_blue} - formatting changing inside words and inside "
-            "whitespace, empty runs with their own formatting inside/at the edge of whitespace and words, leading/trailing/multiple whitespace, non-ASCII whitespace (U+00A0, U+2028, U+3000, U+2003, 0x1C), no words at all - and columns 1..6; plain str arguments carrying SGR sequences (judged as the parsed value); a plain prefix + a body whose text was read before; validated by TLC against "
+            "whitespace, empty runs with their own formatting inside/at the edge of whitespace and words, leading/trailing/multiple whitespace, non-ASCII whitespace (U+00A0, U+2028, U+3000, U+2003, 0x1C), no words at all - and columns 1..6 (plus seven astronomically large widths); plain str arguments carrying SGR sequences (judged as the parsed value); a plain prefix + a body whose text was read before; validated by TLC against "
             "the greedy reference wrap of Wrap.tla. distinct_nontrivial = distinct (layout, columns) with >=2 words or a "
             "word longer than the line")
     exhaustive = {"quick": False, "thorough": False}
@@ -71,6 +71,11 @@ class C16(PureCheck):
             pre = rng.choice(["> ", "-- ", "x", " ", "yx y "])
             for c in (2, 3, 5):
                 yield {"op": "linesplit", "f": {"k": "p", "v": runs, "pre": enc.enc_text(pre)}, "cols": c}
+        # widths nobody wraps to, used as "never wrap, just normalise the whitespace"
+        for hk in range(1, 8):
+            for f in ([[[120, 32, 32, 121, 9, 120], list(ATTS[1])]], [[[120, 121], list(ATTS[0])], [[32, 10], list(ATTS[2])], [[121], list(ATTS[1])]], [], [[[], list(ATTS[0])]]):
+                yield {"op": "linesplit", "f": {"k": "f", "v": f}, "cols": 100000, "huge": hk}
+            yield {"op": "linesplit", "f": {"k": "s", "v": [[[120, 32, 121], list(fmtlib.PLAIN)]]}, "cols": 100000, "huge": hk}
         k = 0
         for f in pool:
             for c in range(1, 7):
@@ -96,7 +101,14 @@ class C16(PureCheck):
             ev["f"] = {"k": "f", "v": enc.enc_fmtstr(FmtStr.from_str(x))}
         else:
             x = enc.build_value(inp["f"])
-        ev["res"] = fmtlib.enc_list_res(lambda: enc.call(linesplit, x, inp["cols"]))
+        cols = inp["cols"]
+        if inp.get("huge"):
+            # a "never wrap" width: any width above the length of the text means the same, so the specification is handed
+            # 100000 while the code gets the real number (TLC's integers are 32-bit)
+            import sys
+            cols = [2 ** 31 - 1, 2 ** 31, 2 ** 32 - 1, 2 ** 32, sys.maxsize, 10 ** 30, 2 ** 63][inp["huge"] - 1]
+            ev["cols"], ev["cols_real"] = 100000, str(cols)
+        ev["res"] = fmtlib.enc_list_res(lambda: enc.call(linesplit, x, cols))
         return ev
 
     def _words(self, ev):
